@@ -245,7 +245,7 @@ M("c03-new-raw-result", ["C03", "C11"], VM,
 
 # ------------------------------------------------------------------ C04 / C14
 M("c04-native-raises-valueerror", ["C04"], VM,
-  "            if count < 0 or count >= 2**53:\n                raise JSRangeError(\"Invalid count value\")", "            if count < 0 or count >= 2**53:\n                raise ValueError(\"Invalid count value\")",
+  "            if count < 0 or (args and to_number(args[0]) == math.inf):\n                raise JSRangeError(\"Invalid count value\")", "            if count < 0 or (args and to_number(args[0]) == math.inf):\n                raise ValueError(\"Invalid count value\")",
   [("C04", "C04-R1", "repeat")])
 M("c04-to-int32-unguarded", ["C04"], VM,
   "        n = to_number(value)\n        if math.isnan(n) or math.isinf(n) or n == 0:\n            return 0\n        n = int(n)\n        n = n & 0xFFFFFFFF\n        if n >= 0x80000000:",
@@ -1199,3 +1199,58 @@ TP("t-frame-cost-accounting", ALL_PROPS, "selftest/patches/t-frame-cost-accounti
 M("c02-native-callback-uncounted", ["C02"], VM,
   "            self._enter_host_level()\n            try:\n                return self._call_host(callback, this_val, args)\n            finally:\n                self.host_depth[0] -= 1\n", "            return self._call_host(callback, this_val, args)\n",
   [("C02", "C02-R14", "_call_callback")], note="fix bbcbe90 reverted: a native handed to a native as its callback runs uncharged")
+M("c05-program-not-hoisted", ["C05"], CO,
+  "        body = self._hoisted(node.body)\n", "        body = node.body\n",
+  [("C05", "C05-R13", "compile:node.body")], note="fix cbdbd11 reverted for programs")
+M("c05-function-body-not-hoisted", ["C05"], CO,
+  "        for stmt in self._hoisted(body.body):\n", "        for stmt in body.body:\n",
+  [("C05", "C05-R13", "_compile_function:body.body")], note="fix cbdbd11 reverted for function bodies")
+M("c05-arrow-body-not-hoisted", ["C05"], CO,
+  "            for stmt in self._hoisted(node.body.body):\n", "            for stmt in node.body.body:\n",
+  [("C05", "C05-R13", "_compile_arrow_function:node.body.body")], note="fix cbdbd11 reverted for arrow block bodies")
+M("c05-hoist-helper-keeps-order", ["C05"], CO,
+  "        return declarations + [\n            s for s in body if not isinstance(s, FunctionDeclaration)\n        ]\n", "        return body\n",
+  [("C05", "C05-R13", "declarations-first")], note="the hoisting helper returns the list as it is")
+M("c05-hoist-helper-declarations-last", ["C05"], CO,
+  "        return declarations + [\n            s for s in body if not isinstance(s, FunctionDeclaration)\n        ]\n", "        return [\n            s for s in body if not isinstance(s, FunctionDeclaration)\n        ] + declarations\n",
+  [("C05", "C05-R13", "declarations-first")], note="declarations moved to the end")
+M("c18-exponent-from-log10", ["C18"], VM,
+  "    return Decimal(abs_n).adjusted()\n", "    return int(math.floor(math.log10(abs_n)))\n",
+  [("C18", "C18-R16", "_decimal_exponent")], note="fix 606930f reverted in part: log10 of 999.9999999999999 is 3.0")
+M("c18-nearest-by-float-scaling", ["C18"], VM,
+  "        scaled = Decimal(abs_n).scaleb(-exponent)\n        return int(scaled.quantize(Decimal(1), rounding=ROUND_HALF_UP))\n", "        return int(math.floor(abs_n * 10 ** (-exponent) + 0.5))\n",
+  [("C18", "C18-R16", "_nearest_multiple")], note="fix 606930f reverted in part: 1.45 * 10 is exactly 14.5")
+M("c18-tofixed-host-format", ["C18"], VM,
+  "            text = str(_nearest_multiple(abs(n), -digits)).rjust(digits + 1, \"0\")\n            if digits:\n                text = text[:-digits] + \".\" + text[-digits:]\n", "            text = f\"{abs(n):.{digits}f}\"\n",
+  [("C18", "C18-R16", "toFixed")], note="the host's exact formatting breaks ties to even: (2.5).toFixed(0) would be 2")
+M("c18-toprecision-round-builtin", ["C18"], VM,
+  "            digits, exp = _rounded_digits(abs(n), precision)\n", "            digits, exp = _rounded_digits(round(abs(n), precision), precision)\n",
+  [("C18", "C18-R16", "toPrecision")], note="a host round() before the exact digits")
+
+# ---- wave 14 --------------------------------------------------------------------------------------------
+S("seed-C04-g", ["C04"], "seeded/C04-g/patch.diff", [("C04", "C04-R17", "node.param.name")], note="optional catch binding: CatchClause.param becomes Optional, the compiler branch tests it, the var collector still reads node.param.name")
+TP("t-optional-catch-binding", ALL_PROPS, "selftest/patches/t-optional-catch-binding.diff", note="the same feature with the collector testing the parameter (repaired C04-g)")
+M("c04-handler-read-untested", ["C04"], CO,
+  "            if node.handler:\n", "            if node.finalizer or True:\n",
+  [("C04", "C04-R17", "node.handler")], note="the try branch reads into the optional handler without testing it")
+M("c04-label-read-untested", ["C04"], CO,
+  "            target_label = node.label.name if node.label else None\n", "            target_label = node.label.name\n",
+  [("C04", "C04-R17", "node.label.name")], count=2, note="break/continue without a label have no label node")
+S("seed-C01-h", ["C01"], "seeded/C01-h/patch.diff", [("C01", "C01-R2", "_check_limits")], note="nested interpreters add their instruction count to the outer counter: the modulus poll is only sound for steps of one")
+S("seed-C06-g", ["C06"], "seeded/C06-g/patch.diff", [("C06", "C06-R10", "_compile_expression")], note="-0 folded into the constant pool, which deduplicates with ==: 0 and -0 share a slot")
+S("seed-C13-g", ["C13"], "seeded/C13-g/patch.diff", [("C13", "C13-R12", "_read_string")], note="escape-free string fast path that does not refuse a raw line break (third author, the slip of C13-e/f)")
+S("seed-C14-g", ["C14"], "seeded/C14-g/patch.diff", [("C14", "C14-R1", "_emit|_patch_jump")], note="the 16-bit range check moved to a finishing helper that the arrow compiler does not call")
+S("seed-C15-h", ["C15"], "seeded/C15-h/patch.diff", [("C15", "C15-R1d", "_emit")], note="arrow functions hoist their vars by iterating the bare set (the sibling sorts it)")
+S("seed-C09-h", ["C09"], "seeded/C09-h/patch.diff", [("C09", "C09-R6", "_match_width")], note="lookbehind start window from a width analysis whose catch-all calls a back-reference one character wide")
+TP("t-lookbehind-window", ALL_PROPS, "selftest/patches/t-lookbehind-window.diff", note="the same window with the back-reference named (0, unbounded) (repaired C09-h)")
+S("seed-C11-g", ["C11", "C15"], "seeded/C11-g/patch.diff", [("C11", "C11-R11", "path.pop"), ("C15", "C15-R1e", "path.pop")], note="conversion path kept as a set of ids, left with set.pop(), which removes an arbitrary entry")
+TP("t-path-as-id-set", ALL_PROPS, "selftest/patches/t-path-as-id-set.diff", note="the same set with discard(id(value)) on the way out (repaired C11-g)")
+S("seed-C16-g", ["C16"], "seeded/C16-g/patch.diff", [("C16", "C16-R12", "repeat")], note="repeat: the early return for an empty result placed before the test for an infinite count (re-stated on d1e4721)")
+M("c16-repeat-no-argument-test", ["C16"], VM,
+  "            if count < 0 or (args and to_number(args[0]) == math.inf):\n                raise JSRangeError(\"Invalid count value\")\n", "",
+  [("C16", "C16-R12", "repeat")], note="no RangeError test on the count at all")
+M("c18-tofixed-nan-before-range", ["C18"], VM,
+  "            if digits < 0 or digits > 100:\n                raise JSRangeError(\"toFixed() digits out of range\")\n            if n != n or math.isinf(n) or abs(n) >= 1e21:\n                return to_string(n)\n", "            if n != n or math.isinf(n) or abs(n) >= 1e21:\n                return to_string(n)\n            if digits < 0 or digits > 100:\n                raise JSRangeError(\"toFixed() digits out of range\")\n",
+  [("C18", "C18-R17", "toFixed")], note="NaN.toFixed(101) must throw: the digit count is checked first")
+S("seed-C18-g", ["C18", "C06"], "seeded/C18-g/patch.diff", [("C18", "C18-R18", "_is_odd_integer"), ("C06", "C06-R14", "_is_odd_integer")], note="parity of the exponent through math.fmod(x, 2) == 1: false for every negative odd exponent")
+TP("t-odd-exponent-helper", ALL_PROPS, "selftest/patches/t-odd-exponent-helper.diff", note="the same helper on abs(x) (repaired C18-g)")
